@@ -2,7 +2,7 @@
    Property theorems only; the model is Bac.Net (no proofs), the proofs live in Bac.NetFacts.
    Local theorems hold for EVERY node state, adapter, and arriving frame of the model.  `Fwd` marks the copies made
    by the forwarding section of process_npdu (netservice.py:607-676), `Tx` every other frame a node emits. *)
-From Bac Require Import Base Net NetFacts NetTerm NetTerm2 NetReply NetOnce NetRoute NetArrive NetLocal NetBcast NetTree NetFlood NetRound NetCert NetLbc NetAnn NetPark NetNum NetNumFacts.
+From Bac Require Import Base Net NetFacts NetTerm NetTerm2 NetReply NetOnce NetRoute NetArrive NetLocal NetBcast NetTree NetFlood NetRound NetCert NetLbc NetAnn NetPark NetNum NetNumFacts NetNumInv.
 Open Scope N_scope.
 
 (* each router hop lowers the hop count by exactly one, and keeps payload and message type *)
@@ -1003,4 +1003,30 @@ Example C06_renumbering_example :
     = [mkAd (Some 13) (Some [5])] /\
   adapters (x_node (fst (run_xscript (xinit (mkNode [mkAd (Some 4) (Some [5])] true [] []))
      [XE (EArrive 0 [9] LBcast (num_is 12 1))]))) = [mkAd (Some 4) (Some [5])].
+Proof. vm_compute. split; reflexivity. Qed.
+
+(* the hypothesis `keys_on` of the last clause of C06_number_learned_station holds in EVERY reachable state: whatever
+   history of events (frames of any kind, sends, cache learning, announcements, renumberings, timer) a freshly bound
+   node has seen, its cache is filed under the numbers of its own ports (`filed`), so a station's cache is filed
+   under its adapter's number - hence a station never loses a path by learning or changing its number *)
+Theorem C06_cache_filed_under_own_ports : forall es x x' l,
+  filed (x_node x) -> run_xscript x es = (x', l) -> filed (x_node x').
+Proof. exact run_xscript_filed. Qed.
+Print Assumptions C06_cache_filed_under_own_ports.
+
+Theorem C06_station_cache_filed : forall n0 es x l a,
+  rcache n0 = [] -> run_xscript (xinit n0) es = (x, l) -> adapters (x_node x) = [a] ->
+  keys_on (a_net a) (rcache (x_node x)).
+Proof. exact thm_station_cache_filed. Qed.
+Print Assumptions C06_station_cache_filed.
+
+(* non-vacuity: a station told nothing learns a router from an I-Am-Router-To-Network, then its number, is renumbered,
+   learns from an SADR - the cache ends up filed under the last number and both paths are there *)
+Example C06_station_cache_filed_example :
+  let x := fst (run_xscript (xinit (mkNode [mkAd None None] true [] []))
+     [XE (EArrive 0 [9] LBcast (i_am [7])); XE (EArrive 0 [9] LBcast (num_is 12 0));
+      XE (EArrive 0 [9] LBcast (num_is 13 0));
+      XE (EArrive 0 [8] LBcast (mkNpdu None (Some (5, [1])) 0 None [16; 99]))]) in
+  adapters (x_node x) = [mkAd (Some 13) None] /\
+  rcache (x_node x) = [((Some 13, 7), [9]); ((Some 13, 5), [8])].
 Proof. vm_compute. split; reflexivity. Qed.
